@@ -875,7 +875,12 @@ func classifyMSMGuard(A *Aff, hl *headerLemma, fn *ssa.Function, buf *ssa.Parame
 	// signal overrun: cellsAvailable < numSignalCells where cellsAvailable is a quotient of the bits left
 	if bo.Op == token.LSS && ft.Val {
 		if f, _ := loadedField(bo.Y); f == hl.numCells {
-			return "signal-overrun"
+			// ... and of nothing else: a count that depends on the content of the buffer (trailing
+			// zero bytes taken for padding, say) refuses well-formed messages
+			if capacityFromLengthOnly(A, fn, buf, bo.X) {
+				return "signal-overrun"
+			}
+			return ""
 		}
 	}
 	// continued message: bitsLeft < bitsPerCell under MultipleMessage
@@ -885,4 +890,51 @@ func classifyMSMGuard(A *Aff, hl *headerLemma, fn *ssa.Function, buf *ssa.Parame
 		}
 	}
 	return ""
+}
+
+// capacityFromLengthOnly: v is (a conversion of) bits / k where k is the width of one signal cell (48 or
+// 80) and bits is an affine function, increasing in len(buf), of len(buf) and the function's integer
+// parameters only.
+func capacityFromLengthOnly(A *Aff, fn *ssa.Function, buf *ssa.Parameter, v ssa.Value) bool {
+	q, ok := stripConv(v).(*ssa.BinOp)
+	if !ok || q.Op != token.QUO {
+		return false
+	}
+	if k, isC := constInt(q.Y); !isC || (k != 48 && k != 80) {
+		return false
+	}
+	// the dividend is built by arithmetic and conversions from len(buf), integer parameters and
+	// constants only, and len(buf) occurs in it
+	sawLen := false
+	var pure func(v ssa.Value, depth int) bool
+	pure = func(v ssa.Value, depth int) bool {
+		if depth > 12 {
+			return false
+		}
+		switch x := v.(type) {
+		case *ssa.Const:
+			return true
+		case *ssa.Parameter:
+			return isInteger(x.Type())
+		case *ssa.Convert:
+			return pure(x.X, depth+1)
+		case *ssa.ChangeType:
+			return pure(x.X, depth+1)
+		case *ssa.BinOp:
+			switch x.Op {
+			case token.ADD, token.SUB, token.MUL, token.QUO:
+				return pure(x.X, depth+1) && pure(x.Y, depth+1)
+			}
+			return false
+		case *ssa.Call:
+			if b, ok := x.Call.Value.(*ssa.Builtin); ok && b.Name() == "len" && len(x.Call.Args) == 1 && x.Call.Args[0] == ssa.Value(buf) {
+				sawLen = true
+				return true
+			}
+			return false
+		}
+		return false
+	}
+	_ = A
+	return pure(q.X, 0) && sawLen
 }
